@@ -175,6 +175,18 @@ theorem inv_step (s s' : St) (a : Act) (hI : Inv s) (hs : step s a = some s') : 
     obtain ⟨hc, hr, hp, ha⟩ := hI
     simp [step] at hs; subst hs
     refine ⟨hc, ?_, ?_, ?_⟩ <;> grind
+  | expire =>
+    obtain ⟨hc, hr, hp, ha⟩ := hI
+    simp only [step] at hs
+    split at hs
+    · rename_i hcond
+      simp at hs; subst hs
+      obtain ⟨hpres, _, hpk, hfl, hth⟩ := hcond
+      refine ⟨hc, ?_, ?_, ?_⟩
+      · intro h; simp at h
+      · intro h; simp at h
+      · intro _ hne; exact absurd hpk hne
+    · simp at hs
   | flush =>
     obtain ⟨hc, hr, hp, ha⟩ := hI
     simp only [step] at hs
